@@ -532,7 +532,7 @@ def gen_step(rng, case, cur):
         elif k == "narrow_method":
             if not batched or n0 == 0:
                 continue
-            d = rng.choice([0, 0, 1, -nd])
+            d = rng.choice([0, 0, 1, -nd, 1 - nd, -1])      # (dim > 1 narrows every grid: not modelled)
             size = sh[d % nd]
             st = rng.randrange(0, size)
             op.update(dim=d, start=st, len=rng.randrange(1, size - st + 1))
@@ -767,6 +767,8 @@ def directed_cases(rng):
                 S({"op": "narrow", "dim": 0, "start": N - 1, "len": 1}), S({"op": "narrow", "dim": 0, "start": 0, "len": N}),
                 S({"op": "narrow_method", "dim": 0, "start": N - 1, "len": 1}),
                 S({"op": "narrow_method", "dim": 1, "start": 0, "len": 1}),
+                S({"op": "narrow_method", "dim": -(2 + len(sp)), "start": N - 1, "len": 1}),
+                S({"op": "narrow_method", "dim": -1, "start": 0, "len": 1}),
                 S({"op": "select", "dim": 0, "idx": N - 1, "fn": "func"}),
                 S({"op": "reduce", "dims": [0], "keep": True, "fn": "sum"}), S({"op": "reduce", "dims": [1], "keep": True, "fn": "mean"}),
                 S({"op": "repeat", "reps": [2, 1] + [1] * len(sp)}), S({"op": "expand", "sizes": [-1] * (2 + len(sp))}),
